@@ -1521,15 +1521,22 @@ template <typename To_Policy, typename From_Policy, typename Type>
 inline Result
 umod_2exp_signed_int(Type& to, const Type x, unsigned int exp,
                      Rounding_Dir dir) {
+  Type v;
   if (exp >= sizeof_to_bits(sizeof(Type))) {
     if (x < 0) {
       return set_pos_overflow_int<To_Policy>(to, dir);
     }
-    to = x;
+    v = x;
   }
   else {
-    to = x & ((Type(1) << exp) - 1);
+    v = x & ((Type(1) << exp) - 1);
   }
+  // The result may exceed the greatest finite value of the policy.
+  if (CHECK_P(To_Policy::check_overflow,
+              (v > Extended_Int<To_Policy, Type>::max))) {
+    return set_pos_overflow_int<To_Policy>(to, dir);
+  }
+  to = v;
   return V_EQ;
 }
 
